@@ -202,7 +202,7 @@ class Program:
         if rng.random() < 0.9:
             opts["integer_max_volume"] = True
         self.world = gen_world(rng, opts)
-        self.gen = Gen(rng, self.world, {"p_comp": 0.4})
+        self.gen = Gen(rng, self.world, {"p_comp": 0.4, "dist_dups": True})
         r = rng.random()
         self.n = rng.randint(1, 8) if r < 0.65 else rng.randint(8, 25) if r < 0.92 else rng.randint(25, 60)
         self.p_fault = rng.choice([0.0, 0.1, 0.125, 0.2])
